@@ -1,6 +1,7 @@
 package filesystem
 
 import (
+	"bufio"
 	"context"
 	"crypto"
 	"errors"
@@ -20,6 +21,7 @@ import (
 	"github.com/go-git/go-git/v6/plumbing/format/idxfile"
 	"github.com/go-git/go-git/v6/plumbing/format/objfile"
 	"github.com/go-git/go-git/v6/plumbing/format/packfile"
+	packutil "github.com/go-git/go-git/v6/plumbing/format/packfile/util"
 	"github.com/go-git/go-git/v6/plumbing/hash"
 	"github.com/go-git/go-git/v6/plumbing/storer"
 	"github.com/go-git/go-git/v6/storage/filesystem/dotgit"
@@ -849,7 +851,34 @@ func (s *ObjectStorage) decodeDeltaObjectAt(
 		return nil, err
 	}
 
-	return newDeltaObject(obj, hash, base, header.Size), nil
+	// header.Size is the size of the delta; DeltaObject.ActualSize is the
+	// size of the object the delta produces.
+	size, err := deltaTargetSize(obj)
+	if err != nil {
+		return nil, err
+	}
+
+	return newDeltaObject(obj, hash, base, size), nil
+}
+
+// deltaTargetSize returns the target size recorded in the header of a
+// delta: the second of its two leading LEB128 numbers.
+func deltaTargetSize(delta plumbing.EncodedObject) (size int64, err error) {
+	r, err := delta.Reader()
+	if err != nil {
+		return 0, err
+	}
+	defer ioutil.CheckClose(r, &err)
+
+	br := bufio.NewReader(r)
+	if _, err = packutil.DecodeLEB128FromReader(br); err != nil {
+		return 0, err
+	}
+	n, err := packutil.DecodeLEB128FromReader(br)
+	if err != nil {
+		return 0, err
+	}
+	return int64(n), nil
 }
 
 // findObjectInPackfile locates h across the storage's packs and
